@@ -88,7 +88,7 @@ impl Property for C15 {
     }
     fn tape_len(&self, tier: Tier) -> usize { tier.pick(400, 500) }
     fn cases(&self, tier: Tier) -> u32 { tier.pick(200_000, 4_000_000) }
-    fn required_labels(&self, _tier: Tier) -> Vec<&'static str> { vec!["ctx:msg-builtin", "ctx:user-sig", "ctx:anm-path", "ctx:std-names", "ctx:mission-text", "compile:ok", "compile:rejected", "unencodable", "trail5c", "len>=128", "masked", "furibug", "furigana-then-string", "fixed-len", "pascal"] }
+    fn required_labels(&self, _tier: Tier) -> Vec<&'static str> { vec!["ctx:msg-builtin", "ctx:user-sig", "ctx:anm-path", "multi-entry", "ctx:std-names", "ctx:mission-text", "compile:ok", "compile:rejected", "unencodable", "trail5c", "len>=128", "masked", "furibug", "furigana-then-string", "fixed-len", "pascal"] }
     fn max_discard_fraction(&self) -> f64 { 0.1 }
 
     fn generate(&self, tape: &mut Tape, _tier: Tier, _known: &Known) -> Value {
@@ -136,13 +136,18 @@ impl Property for C15 {
         if ctx == 7 {
             let game = *tape.pick(ANM_GAMES);
             let g = files::game_from_str(game);
-            let p1 = gen_string(tape, true);
-            let mut strings = vec![p1.clone()]; let mut caps = vec![100000usize];
-            let p2 = if g < truth::Game::Th11 && tape.chance(1, 2) { let p = gen_string(tape, true); strings.push(p.clone()); caps.push(100000); format!("    path_2: {},\n", fmt_str_lit(&p)) } else { String::new() };
-            let text = format!("entry {{\n    path: {},\n{}    has_data: false,\n    rt_width: 16,\n    rt_height: 16,\n    rt_format: 1,\n    sprites: {{}},\n}}\n", fmt_str_lit(&p1), p2);
-            let mut req = json!({"path": strings[0]});
-            if strings.len() > 1 { req["path_2"] = json!(strings[1]); }
-            return json!({"ctx": "anm-path", "fmt": "anm", "game": game, "text": text, "strings": strings, "caps": caps, "feats": [], "req_meta": req});
+            // 1..3 entries, each with its own path (and, in the old header formats, sometimes its own secondary path)
+            let n = *tape.pick(&[1usize, 2, 1, 3]);
+            let mut strings = vec![]; let mut caps = vec![]; let mut text = String::new(); let mut reqs = vec![];
+            for _ in 0..n {
+                let p1 = gen_string(tape, true);
+                strings.push(p1.clone()); caps.push(100000usize);
+                let mut req = json!({"path": p1});
+                let p2 = if g < truth::Game::Th11 && tape.chance(1, 2) { let p = gen_string(tape, true); strings.push(p.clone()); caps.push(100000); req["path_2"] = json!(p); format!("    path_2: {},\n", fmt_str_lit(&p)) } else { String::new() };
+                text.push_str(&format!("entry {{\n    path: {},\n{}    has_data: false,\n    rt_width: 16,\n    rt_height: 16,\n    rt_format: 1,\n    sprites: {{}},\n}}\n\n", fmt_str_lit(&p1), p2));
+                reqs.push(req);
+            }
+            return json!({"ctx": "anm-path", "fmt": "anm", "game": game, "text": text, "strings": strings, "caps": caps, "feats": if n > 1 { vec!["multi-entry"] } else { vec![] }, "req_metas": reqs});
         }
         if ctx == 8 {
             let game = *tape.pick(STD_GAMES);
@@ -238,6 +243,17 @@ impl Property for C15 {
                 None => Outcome::Pass,
                 Some(d) => Outcome::Fail(Failure::new(format!("c15:string-changed:{}", which), format!("game {}: {}\n--- source:\n{}", game, d, text.chars().take(2500).collect::<String>()))),
             };
+        }
+        if let (Some(reqs), Ok((_, metas, _))) = (case.get("req_metas").and_then(|v| v.as_array()), &dec) {
+            // one metadata item per entry, in file order
+            if metas.len() != reqs.len() { return Outcome::Fail(Failure::new(format!("c15:string-changed:{}", which), format!("game {}: {} entries requested, {} decompiled\n--- source:\n{}", game, reqs.len(), metas.len(), text.chars().take(2500).collect::<String>()))); }
+            for (i, (req, got_meta)) in reqs.iter().zip(metas.iter()).enumerate() {
+                let missing = missing_key(req, got_meta, &format!("entry[{}]", i));
+                if let Some(d) = missing.or_else(|| crate::props::c03::meta_subset_diff(req, got_meta, &format!("entry[{}]", i))) {
+                    return Outcome::Fail(Failure::new(format!("c15:string-changed:{}", which), format!("game {}: {}\n--- source:\n{}", game, d, text.chars().take(2500).collect::<String>())));
+                }
+            }
+            return Outcome::Pass;
         }
         let (got, _m, _d) = match dec { Ok(x) => x, Err(d) => return Outcome::Fail(Failure::new(format!("c15:compiled-file-does-not-decompile:{}", which), format!("game {}:\n{}\n--- source:\n{}", game, d.chars().take(1500).collect::<String>(), text.chars().take(2500).collect::<String>()))) };
         if got != strings {
